@@ -3,7 +3,7 @@
 From Coq Require Import ZArith Reals SpecFloat.
 From Flocq Require Import Core BinarySingleNaN.
 Require Import Base Value Float PrintOptions Printer ParseOptions Utf8 Reader Scan Num NumberOps Parser.
-Require Import ReaderProofs TokenProofs NumTokenProofs ClingerProofs.
+Require Import ReaderProofs TokenProofs NumTokenProofs DecimalProofs RadixProofs ClingerProofs FloatLiteralProofs.
 Require Import Lexpr.Props.C05.
 Local Open Scope N_scope.
 
@@ -51,6 +51,63 @@ Check (C05_fast_path_correctly_rounded :
     f64_from_parts true std_parse pos sig e r = (Ok (if pos then B2SF b else f64_neg (B2SF b)), r) /\
     is_finite b = true /\
     B2R b = round radix2 (SpecFloat.fexp 53 1024) ZnearestE (dec_value sig e)).
+
+Check (C05_radix_integers :
+  forall alpha fast std_parse R fuel r sg d ds rest,
+  radix_ok R -> (S (length (d :: ds)) < fuel)%nat ->
+  all_rdigits R (d :: ds) -> delim_ok rest -> rfold R 0 (d :: ds) <= u64_MAX ->
+  at_bytes r (35 :: radix_letter R :: sign_text sg ++ (d :: ds) ++ rest) -> peeked r ->
+  exists r', parse_token default_ro alpha fast std_parse fuel 35 r =
+               (Ok (TNumber (int_result (sign_pos sg) (rfold R 0 (d :: ds)))), r') /\
+             at_bytes r' rest /\ rk r' = rk r).
+
+Check (C05_radix_nonvacuous :
+  radix_ok 16 /\ all_rdigits 16 (s2b "fF") /\ rfold 16 0 (s2b "fF") = 255 /\
+  35 :: radix_letter 16 :: sign_text (Some false) ++ s2b "fF" = s2b "#x-fF" /\
+  from_trait default_ro (fun _ => true) true dec_to_f64 SrcSlice (bytes_events (s2b "#x-fF")) = POk (Number (NegInt (-255))) /\
+  from_trait default_ro (fun _ => true) true dec_to_f64 SrcIo (bytes_events (s2b "#b+101")) = POk (Number (PosInt 5)) /\
+  from_trait default_ro (fun _ => true) true dec_to_f64 SrcStr (bytes_events (s2b "#o777")) = POk (Number (PosInt 511))).
+
+Check (C05_decimal_literal_parts :
+  forall fast std_parse fuel r pos d ip fs ex rest,
+  all_digits (d :: ip) -> all_digits fs -> is_float_lit fs ex -> exp_ok ex -> lit_sig (d :: ip) fs <= u64_MAX ->
+  (S (length (lit_text (d :: ip) fs ex)) < fuel)%nat -> delim_ok rest ->
+  at_bytes r (lit_text (d :: ip) fs ex ++ rest) ->
+  exists r', parse_num_literal fast std_parse fuel 10 pos r =
+             (x <- f64_from_parts fast std_parse pos (lit_sig (d :: ip) fs) (lit_exp fs ex) ;; ret (Float x)) r' /\
+             at_bytes r' rest /\ rk r' = rk r).
+
+Check (C05_decimal_literal_fast_correct :
+  forall alpha std_parse fuel r d ip fs ex rest,
+  all_digits (d :: ip) -> all_digits fs -> is_float_lit fs ex -> exp_ok ex ->
+  (Z.of_N (lit_sig (d :: ip) fs) < 2 ^ 53)%Z -> (Z.abs (lit_exp_exact fs ex) <= 22)%Z ->
+  (S (length (lit_text (d :: ip) fs ex)) < fuel)%nat -> delim_ok rest ->
+  at_bytes r (lit_text (d :: ip) fs ex ++ rest) ->
+  exists (b : binary_float 53 1024) r',
+    parse_token default_ro alpha true std_parse fuel d r = (Ok (TNumber (Float (B2SF b))), r') /\
+    at_bytes r' rest /\ rk r' = rk r /\ is_finite b = true /\
+    B2R b = round radix2 (SpecFloat.fexp 53 1024) ZnearestE (dec_value (lit_sig (d :: ip) fs) (lit_exp_exact fs ex))).
+
+Check (C05_signed_decimal_literal_fast_correct :
+  forall alpha std_parse fuel r sg d ip fs ex rest,
+  sg = 43 \/ sg = 45 ->
+  all_digits (d :: ip) -> all_digits fs -> is_float_lit fs ex -> exp_ok ex ->
+  (Z.of_N (lit_sig (d :: ip) fs) < 2 ^ 53)%Z -> (Z.abs (lit_exp_exact fs ex) <= 22)%Z ->
+  (S (S (length (lit_text (d :: ip) fs ex))) < fuel)%nat -> delim_ok rest ->
+  at_bytes r (sg :: lit_text (d :: ip) fs ex ++ rest) -> peeked r ->
+  exists (b : binary_float 53 1024) r',
+    parse_token default_ro alpha true std_parse fuel sg r =
+      (Ok (TNumber (Float (if sg =? 43 then B2SF b else f64_neg (B2SF b)))), r') /\
+    at_bytes r' rest /\ rk r' = rk r /\ is_finite b = true /\
+    B2R b = round radix2 (SpecFloat.fexp 53 1024) ZnearestE (dec_value (lit_sig (d :: ip) fs) (lit_exp_exact fs ex))).
+
+Check (C05_decimal_nonvacuous :
+  let ip := s2b "1" in let fs := s2b "4159" in let ex := Some (69, Some false, s2b "1") in
+  lit_text (51 :: ip) fs ex = s2b "31.4159E-1" /\
+  all_digits (51 :: ip) /\ all_digits fs /\ is_float_lit fs ex /\ exp_ok ex /\
+  lit_sig (51 :: ip) fs = 314159 /\ lit_exp_exact fs ex = (-5)%Z /\ lit_exp fs ex = (-5)%Z /\
+  from_trait default_ro (fun _ => true) true dec_to_f64 SrcIo (bytes_events (s2b "31.4159E-1")) =
+    POk (Number (Float (f64_of_bits 4614256650576692846)))).
 
 Check (C05_nonvacuous :
   f64_from_parts true dec_to_f64 true 3 (-1) (mk_reader SrcStr []) =
